@@ -411,6 +411,40 @@ def stepMain (line : String) : String :=
     | _ => "bad-op"
   | _ => "bad-line"
 
+/-- `protocol.Marshal(version, value)` / `Unmarshal`: `encodeFuncOf(typ, version, flexible = false, …)` on a struct
+type, i.e. the fields live in `version`, never flexible.  Marshal is a pure function of (type, version, value). -/
+def marshalTy (j ver : String) : Option (RawMsg × Int × Ty) := do
+  let idx ← j.toNat?
+  let v ← ver.toInt?
+  let m ← Gen.marshaled[idx]?
+  let root ← findStruct m.structs m.root
+  let ty ← resolveFields m.structs v false resolveFuel root.fields [] [] []
+  pure (m, v, ty)
+
+def stepMarshal (op j ver : String) (rest : List String) (impl : String) : String :=
+  match marshalTy j ver with
+  | none => "bad-case"
+  | some (m, v, ty) =>
+    let root : GoTy := .named m.root
+    if op == "marshal" then
+      match parseMsgText m rest with
+      | none => "bad-args"
+      | some g => match project m.structs v root g with
+        | none => "bad-project"
+        | some val => answer (hexTok (encode ty val)) (impl == hexTok (Spec.encode ty val))
+    else
+      match rest with
+      | [hex] => match ofHex hex with
+        | none => "bad-hex"
+        | some bs =>
+          -- Unmarshal: d.remain = len(data); dontExpectEOF(d.err); trailing bytes are left unread
+          let model := showRes (fun (x : Val) => (embed m.structs v root x).text) (decode cfg ty ⟨bs, bs.length⟩)
+          let ref := match Spec.parse ty bs with
+            | some (x, _) => (embed m.structs v root x).text
+            | none => "err"
+          answer model (impl == ref)
+      | _ => "bad-args"
+
 /-- two response frames back to back on one connection: the first decode must consume exactly one frame -/
 def stepPipe (pi ver hexes impl : String) : String :=
   match getCase (dropFirst pi) ver, hexes.splitOn "." with
@@ -437,6 +471,8 @@ def step (line : String) : String :=
   | [req, impl] =>
     match words req with
     | ["mal", pi, ver, hexes] => if pi.startsWith "P" then stepPipe pi ver hexes impl else stepMain line
+    | "marshal" :: j :: ver :: rest => stepMarshal "marshal" j ver rest impl
+    | "unmarshal" :: j :: ver :: rest => stepMarshal "unmarshal" j ver rest impl
     | _ => stepMain line
   | _ => stepMain line
 
